@@ -93,11 +93,27 @@ def block_ops(r):
     return [r.choice(BLOCK_OPS) for _ in range(r.randrange(0, 7))]
 
 
+def pipe0_ops(r):
+    """pipe 0 is shared between reading and ACK reception: histories over the calls that move its address"""
+    def addr():
+        return bytes(r.choice([0x11, 0x22, 0xC3]) for _ in range(5))
+    out = []
+    for _ in range(r.randrange(1, 6)):
+        out.append(r.choice([("open_rx_pipe", 0, addr()), ("open_tx_pipe", addr()), ("open_tx_pipe", addr()),
+                             ("close_rx_pipe", 0), ("listen=", True), ("listen=", False), ("open_rx_pipe", 1, addr()),
+                             ("address_length=", r.choice([3, 4, 5])), ("auto_ack=", r.random() < 0.5)]))
+    return out
+
+
 def gen_rf24_case(r):
     k = r.choice([2, 3])
     ops = []
+    p0 = r.random() < 0.35
     for _ in range(r.randrange(3, 9)):
         o = r.randrange(k)
+        if p0:
+            ops += [("select", o), ("enter",)] + pipe0_ops(r) + [("exit",)]
+            continue
         tail = r.choice([[], [], [("listen=", True)], [("listen=", True), ("power=", False)], [("power=", False)],
                          [("listen=", False)]])
         ops += [("select", o), ("enter",)] + block_ops(r) + tail + [("exit",)]
